@@ -125,6 +125,42 @@ def half_millionth_cases():
                         yield dict(game=g, prune=prune)
 
 
+def late_flip_cases():
+    """Planted: 'rewards under minimal reachability' is the one quantity that can FALL during the reward
+    iteration.  A Player 1 state s chooses between a branch A whose (higher) value arrives late - a chain of L
+    chance states numbered against the direction of travel - and a branch B that holds a Player 2 state whose
+    reachability strategy is expensive; when s flips to A in the very last sweeps, the figure of s drops and the
+    drop has to travel up through a Player 2 state u and the initial state w."""
+    H = 0.5
+    for L in (2, 3, 4, 6):
+        for scale in (1, 3):
+            # 0 w(P1) -> 1 u(P2): c -> cheap (reach 1), r -> 2 ; 2 s(P1): a -> 3 (A), b -> 4 (B)
+            # 3 .. 3+L-1: chain of A (last one pays 10*scale, then a 1/2 lottery); B = 4+L-? built below
+            players = [P1, P2, P1]
+            rewards = [1, 1, 1]
+            tl = [[("go", 1)], None, None]
+            a0 = 3
+            chain = list(range(a0, a0 + L))
+            lot_a = a0 + L                      # 1/2 final, 1/2 dead
+            b = lot_a + 1                       # Player 2 state of branch B
+            bx, by = b + 1, b + 2               # x: pays 8 (reach 1); y: pays 20 (reach 1/2)
+            cheap = b + 3
+            final, dead = b + 4, b + 5
+            for i, s_ in enumerate(chain):
+                players.append(PR)
+                rewards.append(10 * scale if i == L - 1 else 0)
+                tl.append([(1, chain[i + 1] if i + 1 < L else lot_a)])
+            players += [PR, P2, PR, PR, PR, PR, PR]
+            rewards += [0, 0, 8 * scale, 20 * scale, 1, 0, 0]
+            tl += [[(H, final), (H, dead)], [("x", bx), ("y", by)], [(1, final)], [(H, final), (H, dead)], [(1, final)],
+                   [(1, final)], [(1, dead)]]
+            tl[1] = [("c", cheap), ("r", 2)]
+            tl[2] = [("a", a0), ("b", b)]
+            g = dict(rewards=rewards, players=players, transition_list=tl, final_states=[final])
+            for prune in (False, True):
+                yield dict(game=g, prune=prune)
+
+
 def slow_cases():
     for g in games.slow_choice_games():
         for prune in (True, False):
@@ -134,6 +170,8 @@ def slow_cases():
 def phases(tier):
     return [Phase("half-millionth-reach-values", enum=half_millionth_cases,
                   note="reach probabilities that sit on a 6-digit rounding boundary, siblings less than 1e-6 away"),
+            Phase("late-flips", enum=late_flip_cases,
+                  note="the minimal-reachability reward of a Player 1 state falls in the last sweeps and the fall has to travel upstream"),
             Phase("slow-rewarded-loops", enum=slow_cases, note="values that need 10^3..10^5 sweeps"),
             Phase("zero-reward-chains", strategy=zero_reward_chains, examples=(250, 8000),
                   note="no rewards and no choices at all: the diagnostics are still defined"),
